@@ -27,7 +27,8 @@
 EXTENDS Naturals, Integers, Sequences, FiniteSets, TLC, Json
 
 CONSTANTS Families,
-          Deep          \* BOOLEAN: the larger argument classes of the thorough tier
+          Deep,         \* BOOLEAN: the larger argument classes of the thorough tier
+          UcastFixed    \* BOOLEAN: IsUnicastMAC tests the length first (known finding KF_IsUnicastMACEmptyPanics repaired)
 VARIABLE d
 
 Min(a, b) == IF a < b THEN a ELSE b
@@ -121,8 +122,8 @@ SolSet == {[k |-> "solnode", ip |-> a,
             exp |-> IF Len(a) = 16 THEN [ip |-> <<255, 2, 0, 0, 0, 0, 0, 0, 0, 0, 0, 1, 255>> \o Tail3(a), mac |-> <<51, 51, 255>> \o Tail3(a)]
                     ELSE [ip |-> <<>>, mac |-> <<>>]]
            : a \in {LlaRef(Mac6(2)), LlaRef(Mac6(255)), V6, Pat(16, 1), Pat(16, 0), <<192, 168, 0, 1>>}}
-UcastSet == {[k |-> "ucast", mac |-> m, exp |-> [panic |-> Len(m) = 0, unicast |-> IF Len(m) = 0 THEN FALSE ELSE m[1] % 2 = 0],
-              obs |-> IF Len(m) = 0 THEN "KfUcastEmptyPanics" ELSE ""]
+UcastSet == {[k |-> "ucast", mac |-> m, exp |-> [panic |-> Len(m) = 0 /\ ~UcastFixed, unicast |-> IF Len(m) = 0 THEN FALSE ELSE m[1] % 2 = 0],
+              obs |-> IF Len(m) = 0 /\ ~UcastFixed THEN "KfUcastEmptyPanics" ELSE ""]
              : m \in {Mac6(b) : b \in FirstOctets} \cup {<<>>, <<1>>, <<2>>, <<51, 51, 0, 0, 0, 1>>, <<2, 17, 34, 255, 254, 51, 68, 85>>}}
 
 \* ---------------------------------------------------------------- log: the level lattice
